@@ -20,6 +20,12 @@ type array [3][3]float64
 // At expects indices in the range [0,2].
 // It will panic if i or j are out of bounds for the matrix.
 func (m *Mat) At(i, j int) float64 {
+	if uint(i) > 2 {
+		panic(mat.ErrRowAccess)
+	}
+	if uint(j) > 2 {
+		panic(mat.ErrColAccess)
+	}
 	if m.data == nil {
 		m.data = new(array)
 	}
@@ -28,6 +34,12 @@ func (m *Mat) At(i, j int) float64 {
 
 // Set sets the element at row i, column j to the value v.
 func (m *Mat) Set(i, j int, v float64) {
+	if uint(i) > 2 {
+		panic(mat.ErrRowAccess)
+	}
+	if uint(j) > 2 {
+		panic(mat.ErrColAccess)
+	}
 	if m.data == nil {
 		m.data = new(array)
 	}
